@@ -24,6 +24,7 @@ type Report struct {
 	Cut         int
 	CutMsgs     map[string]int
 	Asserts, AssertQueries int
+	CrossChecked, CrossUnknown int
 	Unsupported int
 	UnsupportedMsgs map[string]int
 	TruncatedMsgs   map[string]int
@@ -60,6 +61,7 @@ type Explorer struct {
 	Deadline  time.Time
 	MaxViolations int
 	Seed      int
+	CrossSolver string // e.g. "cvc5": second opinion on every assertion batch
 }
 
 func (e *Explorer) Run() *Report {
@@ -108,6 +110,13 @@ func (e *Explorer) Run() *Report {
 				mu.Unlock()
 				solver.Close()
 			}()
+			var solver2 *smt.Solver
+			if e.CrossSolver != "" {
+				if s2, err := smt.NewSolver(e.CrossSolver, e.TimeoutMS); err == nil {
+					solver2 = s2
+					defer s2.Close()
+				}
+			}
 			for {
 				mu.Lock()
 				for len(work) == 0 && busy > 0 && !stop {
@@ -125,6 +134,7 @@ func (e *Explorer) Run() *Report {
 
 				cfg := *e.Cfg
 				it := NewInterp(e.P, &cfg, solver, prefix)
+				it.Solver2 = solver2
 				res := it.Run(e.Entry)
 				var sample map[string]any
 				mu.Lock()
@@ -154,6 +164,8 @@ func (e *Explorer) Run() *Report {
 				rep.UnknownBranches += res.UnknownBr
 				rep.Asserts += res.Asserts
 				rep.AssertQueries += res.AssertQ
+				rep.CrossChecked += res.Cross
+				rep.CrossUnknown += res.CrossUnknown
 				rep.FloatBranches += it.floatBranches
 				if res.PCSize > rep.MaxPC {
 					rep.MaxPC = res.PCSize
